@@ -33,47 +33,86 @@ def tokenizeAux : List Char → List Char → List Tok
 
 def tokenize (s : String) : List Tok := tokenizeAux s.toList []
 
-/-! ### the evaluator (after `fix: if-feature group ends at its own closing parenthesis`) -/
+/-! ### the evaluator as it is now (after the `fix:` commits on if-feature)
 
-abbrev St := List Tok × List Bool     -- remaining input, boolean stack (top first)
+  Every `eval` call tracks the values it has produced above `base := len(stack)`: none while an
+  operand is expected, exactly one once an operator may follow; nested evaluations must
+  yield exactly one value.  So the part of the Go stack a call can see is an `Option Bool`. -/
 
-def pop2 (op : Bool → Bool → Bool) : St → Option St
+abbrev St := List Tok × Option Bool     -- remaining input, value produced by this group so far
+
+/-- the `switch tok` of one loop iteration; `rec` is the nested `y.eval(..)` started with a
+    fresh base -/
+def switchF (rec : Bool → List Tok → Option St) (env : String → Bool)
+    (t : Tok) (r : List Tok) (cur : Option Bool) : Option St :=
+  match t, cur with
+  | .lp, none =>
+    match rec false r with
+    | some (.rp :: r2, some v) => some (r2, some v)
+    | _ => none
+  | .and, some a =>
+    match rec true r with
+    | some (r1, some b) => some (r1, some (a && b))
+    | _ => none
+  | .or, some a =>
+    match rec false r with
+    | some (r1, some b) => some (r1, some (a || b))
+    | _ => none
+  | .not, none =>
+    match rec true r with
+    | some (r1, some b) => some (r1, some (!b))
+    | _ => none
+  | .feat s, none => some (r, some (env s))
+  | _, _ => none
+
+/-- `eval(greedy)` started at a fresh base, continuing with `cur` produced so far -/
+def evalF (env : String → Bool) : Nat → Bool → List Tok → Option Bool → Option St
+  | 0, _, _, _ => none
+  | _ + 1, _, [], cur => some ([], cur)
+  | f + 1, g, t :: r, cur =>
+    if t = .rp then some (.rp :: r, cur) else
+    match switchF (fun g' r' => evalF env f g' r' none) env t r cur with
+    | none => none
+    | some (r', c') => if g then some (r', c') else evalF env f false r' c'
+
+/-- `IfFeature.Evaluate`: evaluate, pop the result, error when anything is left over -/
+def evaluate (env : String → Bool) (toks : List Tok) : Option Bool :=
+  match evalF env (toks.length + 1) false toks none with
+  | some ([], some b) => some b
+  | _ => none
+
+/-! ### the evaluator of the pinned tree (kept for the witnesses): one flat stack, ")" consumed by
+     whichever nested evaluation meets it, operators pop whatever is there -/
+
+abbrev StL := List Tok × List Bool
+
+def pop2 (op : Bool → Bool → Bool) : StL → Option StL
   | (r, b :: a :: s) => some (r, op a b :: s)
   | _ => none
 
-def pop1 (op : Bool → Bool) : St → Option St
+def pop1 (op : Bool → Bool) : StL → Option StL
   | (r, a :: s) => some (r, op a :: s)
   | _ => none
 
-/-- the `switch tok` of one loop iteration; `rec` is the nested `y.eval(..)`.
-    `legacy = true` reproduces the pinned tree: ")" is consumed by whichever nested
-    evaluation meets it and "(" does not look for its own ")" -/
-def switchF (rec : Bool → List Tok → List Bool → Option St) (legacy : Bool) (env : String → Bool)
-    (t : Tok) (r : List Tok) (st : List Bool) : Option St :=
-  match t with
-  | .lp =>
-    match rec false r st with
-    | some (.rp :: r2, s1) => if legacy then some (.rp :: r2, s1) else some (r2, s1)
-    | some (r2, s1) => if legacy then some (r2, s1) else none
-    | none => none
-  | .and => (rec true r st).bind (pop2 (· && ·))
-  | .or => (rec false r st).bind (pop2 (· || ·))
-  | .not => (rec true r st).bind (pop1 (!·))
-  | .feat s => some (r, env s :: st)
-  | .rp => none
-
-def evalF (legacy : Bool) (env : String → Bool) : Nat → Bool → List Tok → List Bool → Option St
+def evalLegacy (env : String → Bool) : Nat → Bool → List Tok → List Bool → Option StL
   | 0, _, _, _ => none
   | _ + 1, _, [], st => some ([], st)
   | f + 1, g, t :: r, st =>
-    if t = .rp then (if legacy then some (r, st) else some (.rp :: r, st)) else
-    match switchF (evalF legacy env f) legacy env t r st with
+    let res : Option StL :=
+      match t with
+      | .rp => none
+      | .lp => evalLegacy env f false r st
+      | .and => (evalLegacy env f true r st).bind (pop2 (· && ·))
+      | .or => (evalLegacy env f false r st).bind (pop2 (· || ·))
+      | .not => (evalLegacy env f true r st).bind (pop1 (!·))
+      | .feat s => some (r, env s :: st)
+    if t = .rp then some (r, st) else
+    match res with
     | none => none
-    | some (r', s') => if g then some (r', s') else evalF legacy env f false r' s'
+    | some (r', s') => if g then some (r', s') else evalLegacy env f false r' s'
 
-/-- `IfFeature.Evaluate`: evaluate, pop the result, error when anything is left over -/
-def evaluate (legacy : Bool) (env : String → Bool) (toks : List Tok) : Option Bool :=
-  match evalF legacy env (toks.length + 1) false toks [] with
+def evaluateLegacy (env : String → Bool) (toks : List Tok) : Option Bool :=
+  match evalLegacy env (toks.length + 1) false toks [] with
   | some ([], [b]) => some b
   | _ => none
 
@@ -126,6 +165,46 @@ mutual
     | .feat s => [.feat s]
     | .paren o => .lp :: o.toks ++ [.rp]
 end
+
+/-! ### RFC 7950 recursive-descent recogniser (the Spec's notion of "well-formed") -/
+
+mutual
+  def parseOr : Nat → List Tok → Option (OrE × List Tok)
+    | 0, _ => none
+    | f + 1, toks =>
+      match parseAnd f toks with
+      | none => none
+      | some (a, .or :: r) =>
+        match parseOr f r with
+        | some (o, r') => some (.cons a o, r')
+        | none => none
+      | some (a, r) => some (.one a, r)
+  def parseAnd : Nat → List Tok → Option (AndE × List Tok)
+    | 0, _ => none
+    | f + 1, toks =>
+      match parseNot f toks with
+      | none => none
+      | some (n, .and :: r) =>
+        match parseAnd f r with
+        | some (a, r') => some (.cons n a, r')
+        | none => none
+      | some (n, r) => some (.one n, r)
+  def parseNot : Nat → List Tok → Option (NotE × List Tok)
+    | 0, _ => none
+    | f + 1, .not :: r => (parseNot f r).map fun (n, r') => (.not n, r')
+    | f + 1, .feat s :: r => some (.prim (.feat s), r)
+    | f + 1, .lp :: r =>
+      match parseOr f r with
+      | some (o, .rp :: r') => some (.prim (.paren o), r')
+      | _ => none
+    | _ + 1, _ => none
+end
+
+/-- the whole token list is one expression of the grammar -/
+def parseRFC (toks : List Tok) : Option OrE :=
+  match parseOr (3 * toks.length + 3) toks with
+  | some (o, []) => some o
+  | _ => none
 
 /-! ### feature configurations (meta/feature_set.go) -/
 
